@@ -438,6 +438,8 @@ type Case struct {
 	StopAfter     int            `json:"stop_after,omitempty"`
 	TimeoutMs     int            `json:"timeout_ms,omitempty"`
 	CheckLeaks    bool           `json:"check_leaks,omitempty"`
+	SchemaSDL     string         `json:"schema_sdl,omitempty"`
+	Introspection bool           `json:"introspection,omitempty"`
 }
 
 type Result struct {
